@@ -148,6 +148,11 @@ type Uint64MapBuilder struct {
 }
 
 func NewUint64MapBuilder(bucketBits int, tagBits int) *Uint64MapBuilder {
+	// A bucket header packs (id >> bucketBits) << tagBits into a uint64, which
+	// only keeps every bit of id if at least tagBits bits were moved to the bucket.
+	if bucketBits < tagBits {
+		bucketBits = tagBits
+	}
 	return &Uint64MapBuilder{
 		Layout: Uint64MapLayout{
 			BucketBits: bucketBits,
